@@ -36,9 +36,12 @@ static void dup_desc(uint64_t idx, void *ctx, char *b, size_t n)
     else cont = "dup, delete the original, copy must be unchanged, delete the copy";
     snprintf(b, n, "%s in state %s: %s", cls_label(c), c->build_name(d->bi), cont);
 }
+static void cmp_prelude(cls_t *c);
+static int cv(spif_cmp_t c);
 static void dup_case(uint64_t idx, void *ctx)
 {
     dc_t *d = &DC[idx]; cls_t *c = &CLASSES[d->ci]; (void) ctx; g_family = d->fam;
+    cmp_prelude(c);
     char shape[160]; snprintf(shape, sizeof shape, "state %s", c->build_name(d->bi));
     mc_set_shape(shape);
     spif_obj_t o = c->build(d->bi);
@@ -52,6 +55,8 @@ static void dup_case(uint64_t idx, void *ctx)
     if (d->mode == 0) {
         if (SPIF_OBJ_CLASS(dd) != SPIF_OBJ_CLASS(o)) FAIL(site(c, "dup"), "model:class", shape, "the copy has a different class record");
         if (strcmp(before, dobs)) FAIL(site(c, "dup"), "model:value", shape, "copy observes as {%s}, original {%s}", dobs, before);
+        /* classes that compare by value (all but the two linked-list families, whose comp is the identity order of spif_obj_comp) */
+        if (!(c->kind && g_family != 0)) { int e1 = cv(SPIF_OBJ_COMP(o, dd)), e2 = cv(SPIF_OBJ_COMP(dd, o)); if (e1 != 0 || e2 != 0) FAIL(site(c, "comp"), "model:copy-not-equal", shape, "comp(original, copy)=%d and comp(copy, original)=%d: an equal copy compares EQUAL", e1, e2); }
         spif_classname_t t = SPIF_OBJ_TYPE(o);
         if (!t || strcmp((char *) t, cls_classname(c))) { char e[60]; mc_esc(t, t ? strnlen((char *) t, 12) : 0, e, sizeof e); FAIL(site(c, "type"), "model:classname", "", "type() returned \"%s\", the class is %s", e, cls_classname(c)); }
         c->observe(o, after, sizeof after);
@@ -104,9 +109,23 @@ static void cmp_desc(uint64_t idx, void *ctx, char *b, size_t n)
     if (k->z < 0) snprintf(b, n, "%s comp laws on the pair (%s, %s): reflexive, antisymmetric, NULL first, model order", cls_label(c), c->build_name(k->x), c->build_name(k->y));
     else snprintf(b, n, "%s comp transitivity on (%s, %s, %s)", cls_label(c), c->build_name(k->x), c->build_name(k->y), c->build_name(k->z));
 }
+/* history: the laws are checked in a process that has already compared every pair of pool states many times (anything a comparison
+ * keeps between calls - depth counters, scratch, caches - has been through 80 rounds, placeholder-against-element pairs included) */
+static void cmp_prelude(cls_t *c)
+{
+    static unsigned char done[64][3];
+    int ci = (int) (c - CLASSES);
+    if (done[ci][g_family]) return;
+    done[ci][g_family] = 1;
+    spif_obj_t o[16]; int n = c->n_build < 16 ? c->n_build : 16;
+    for (int i = 0; i < n; i++) o[i] = c->build(i);
+    for (int r = 0; r < 80; r++) for (int i = 0; i < n; i++) for (int j = 0; j < n; j++) if (o[i] && o[j]) (void) SPIF_OBJ_COMP(o[i], o[j]);
+    for (int i = 0; i < n; i++) if (o[i]) SPIF_OBJ_DEL(o[i]);
+}
 static void cmp_case(uint64_t idx, void *ctx)
 {
     cc_t *k = &CC[idx]; cls_t *c = &CLASSES[k->ci]; (void) ctx; g_family = k->fam;
+    cmp_prelude(c);
     spif_obj_t x = c->build(k->x), y = c->build(k->y), z = k->z >= 0 ? c->build(k->z) : NULL;
     char shape[200];
     if (k->z < 0) {
